@@ -490,7 +490,7 @@ def run(run: Run):
     vec = vectors_check(run, play, cur, pin)
 
     # --- generated messages
-    per_class = 5 if run.tier == 'quick' else 40
+    per_class = 4 if run.tier == 'quick' else 20
     focus = {d['where'].split('.')[0] + '.' + d['where'].split('.')[1] for d in diffs if d['where'].count('.') >= 1 and d['where'].split('.')[0] not in ('primitives', 'records', 'family_id_width')}
     cases = []
     for m in play['messages']:
@@ -507,7 +507,7 @@ def run(run: Run):
     run.count('message_classes', len(play['messages']))
 
     # --- obfuscation
-    okeys, oexplicit, garb = obf_cases(run, 6 if run.tier == 'quick' else 24)
+    okeys, oexplicit, garb = obf_cases(run, 4 if run.tier == 'quick' else 16)
     for key, plain, obf in [(bytes.fromhex(a), b.encode(), bytes.fromhex(c)) for a, b, c in pin.get('obfuscation_vectors', [])]:
         from aioslsk.protocol import obfuscation
         if obfuscation.encode(plain, key=key) != obf or obfuscation.decode(obf) != plain:
@@ -517,7 +517,7 @@ def run(run: Run):
             run.add_broken('anchor:pinned-obfuscation-vs-maintainer-vectors', f'reference encoder disagrees with test vector {obf.hex()}')
 
     # --- strings
-    scases = string_cases(run, 150 if run.tier == 'quick' else 3000)
+    scases = string_cases(run, 80 if run.tier == 'quick' else 1500)
 
     # --- L2: model vs implementation
     if model_ok and cur:
@@ -537,7 +537,7 @@ def run(run: Run):
         run.cov['traces_validated_against_impl'] = len(cases) + len(vec) + 601 * len(okeys) + len(garb) + len(scases) - nb
     elif not run.broken:
         run.add_broken('correspondence:C01', 'model not built')
-    run.cov['exhaustive'] = 'obfuscation payload lengths 0..600; all 256 single-byte strings'
+    run.notes.append('exhaustive sub-domains: obfuscation payload lengths 0..600 per key; all 256 single-byte strings')
 
 
 # ----------------------------------------------------------------------------------------
